@@ -1,4 +1,210 @@
-/- C05 — model and specification (stub; see HACKING.md) -/
+/-
+  C05 — parsing depends on instruction content only, not on layout, comments or case.
+
+  MODEL  (mirrors shelx.py `_parse_cards` 362-392 and misc.py `multiline_test`): the text of a file is a
+  list of physical lines (`_reslist` after `splitlines`), every line a `List Char`.  `run` is the for-loop
+  with the inner `while multiline` loop as a state machine (`some cur` = inside the while loop); consumed
+  lines are blanked in Python and then skipped as `''`, here they are simply not visited again.  Reading
+  `_reslist[line_num + wrapindex]` past the end is the `IndexError` value.  `run` is parametric in the
+  continuation test and in the cut that is applied to the accumulated text, so that both the REPAIRED code
+  (`mtNew`, `cutNew`; fixes/C05_1, C05_2) and the code as it was (`mtOld`, `cutOld`) are instances.
+
+  SPEC  (`norm`): written on the token level and without gluing characters: every physical line has
+  tokens; a line is continued iff the last non-blank character before any `!` comment is `=`; a logical
+  line is the concatenation of the token lists of its physical lines; a continuation line has to be
+  indented; lines that start with a blank (or are empty) between instructions are ignored; the first token
+  of a non-indented line is a keyword (or atom name) and is case-insensitive.  `none` = not a valid layout.
+-/
 namespace Shelx.C05
+
+abbrev Line := List Char
+abbrev Token := List Char
+
+inductive PyErr | indexError
+  deriving DecidableEq, Repr
+
+/-! ### shared leaf functions (CPython `str` methods on ASCII text) -/
+
+/-- white space as `str.split()` / `str.rstrip()` / `\s` see it (ASCII part) -/
+def ws (c : Char) : Bool :=
+  c == ' ' || c == '\t' || c == '\n' || c == '\r' || c == '\x0b' || c == '\x0c' ||
+  c == '\x1c' || c == '\x1d' || c == '\x1e' || c == '\x1f'
+
+def allWs (l : List Char) : Bool := l.all ws
+
+/-- the next character (or the end of the text) ends a token -/
+def startsWs : List Char → Bool
+  | [] => true
+  | d :: _ => ws d
+
+def consTok (c : Char) : List Token → List Token
+  | [] => [[c]]
+  | t :: ts => (c :: t) :: ts
+
+/-- `s.split()` -/
+def split : List Char → List Token
+  | [] => []
+  | c :: cs =>
+    if ws c then split cs
+    else if startsWs cs then [c] :: split cs
+    else consTok c (split cs)
+
+/-- `s.split('!')[0]` -/
+def stripComment (l : Line) : Line := l.takeWhile (· != '!')
+
+def upper (l : List Char) : List Char := l.map Char.toUpper
+
+def upperHead : List Token → List Token
+  | [] => []
+  | t :: ts => upper t :: ts
+
+/-- `line.startswith(' ')` -/
+def indented : Line → Bool
+  | ' ' :: _ => true
+  | _ => false
+
+/-- `line.startswith(' ') or line == ''` (shelx.py:366) -/
+def skip (l : Line) : Bool := indented l || l.isEmpty
+
+/-- `dsr_regex = ^rem\s+DSR\s+(PUT|REPLACE).*`, IGNORECASE, `re.match` -/
+def dropWs1 : Line → Option Line
+  | c :: cs => if ws c then some (cs.dropWhile ws) else none
+  | [] => none
+
+def stripPrefix (p l : Line) : Option Line := if p.isPrefixOf l then some (l.drop p.length) else none
+
+def dsrMatch (l : Line) : Bool :=
+  match stripPrefix "REM".toList (upper l) >>= dropWs1 >>= stripPrefix "DSR".toList >>= dropWs1 with
+  | some r => "PUT".toList.isPrefixOf r || "REPLACE".toList.isPrefixOf r
+  | none => false
+
+/-- a REM line that is free text (no DSR command): never continued. Keyword compared case-insensitively. -/
+def plainRem (l : Line) : Bool := upper (l.take 3) == "REM".toList && !dsrMatch l
+
+/-! ### model -/
+
+/-- `s.rstrip()` -/
+def rstrip (l : List Char) : List Char := (l.reverse.dropWhile ws).reverse
+
+/-- `s.endswith('=')` -/
+def endsWithEq (l : List Char) : Bool := l.getLast? == some '='
+
+/-- `s.rpartition('=')[0]` (empty when there is no '=') -/
+def beforeLastEq : List Char → List Char
+  | [] => []
+  | c :: cs => if cs.contains '=' then c :: beforeLastEq cs else []
+
+/-- `multiline_test` after fixes/C05_1 + C05_2:
+    `line.split('!')[0].rstrip().endswith('=')`, REM exemption with `line[:3].upper() == 'REM'` -/
+def mtNew (l : Line) : Bool := endsWithEq (rstrip (stripComment l)) && !plainRem l
+
+/-- the text that is kept of the accumulated line when the next line is glued on (shelx.py:380 after
+    fixes/C05_1): `line.split('!')[0].rpartition('=')[0]` -/
+def cutNew (cur : Line) : Line := beforeLastEq (stripComment cur)
+
+/-- `multiline_test` as it was: `line.rfind('=') > -1`, REM exemption with `line.startswith("REM")` -/
+def mtOld (l : Line) : Bool := l.contains '=' && !(l.take 3 == "REM".toList && !dsrMatch l)
+
+/-- `line.rpartition('=')[0]` as it was -/
+def cutOld (cur : Line) : Line := beforeLastEq cur
+
+/-- the for loop of `_parse_cards` with the inner while loop; output: (index of the first physical line,
+    glued text) per logical line -/
+def run (mt : Line → Bool) (cut : Line → Line) :
+    Nat → Option (Nat × Line) → List Line → Except PyErr (List (Nat × Line))
+  | _, none, [] => .ok []
+  | _, some _, [] => .error .indexError
+  | i, none, l :: rest =>
+    if skip l then run mt cut (i + 1) none rest
+    else if mt l then run mt cut (i + 1) (some (i, l)) rest
+    else match run mt cut (i + 1) none rest with
+      | .ok t => .ok ((i, l) :: t)
+      | .error e => .error e
+  | i, some (s, cur), nxt :: rest =>
+    if mt nxt then run mt cut (i + 1) (some (s, cut cur ++ nxt)) rest
+    else match run mt cut (i + 1) none rest with
+      | .ok t => .ok ((s, cut cur ++ nxt) :: t)
+      | .error e => .error e
+
+def modelLogicalLines (f : List Line) : Except PyErr (List (Nat × Line)) := run mtNew cutNew 0 none f
+def modelLogicalLinesOld (f : List Line) : Except PyErr (List (Nat × Line)) := run mtOld cutOld 0 none f
+
+/-- shelx.py:389-392: `spline = line.split('!')[0].split()`, `line = line.upper().split('!')[0]`, `word = line[:4]` -/
+structure Classified where
+  word : List Char
+  spline : List Token
+  deriving DecidableEq, Repr
+
+def classify (g : Line) : Classified :=
+  { word := (stripComment (upper g)).take 4, spline := split (stripComment g) }
+
+/-- what the rest of the parser gets to see of a logical line, keyword case removed -/
+def tokensOf (g : Line) : List Token := upperHead (classify g).spline
+
+def mapOk {α β} (f : α → β) : Except PyErr (List α) → Except PyErr (List β)
+  | .ok l => .ok (l.map f)
+  | .error e => .error e
+
+def modelTokens (f : List Line) : Except PyErr (List (List Token)) :=
+  mapOk (fun p => tokensOf p.2) (modelLogicalLines f)
+def modelTokensOld (f : List Line) : Except PyErr (List (List Token)) :=
+  mapOk (fun p => tokensOf p.2) (modelLogicalLinesOld f)
+
+/-! ### specification -/
+
+/-- the part of a physical line that is not comment -/
+def content (l : Line) : Line := stripComment l
+
+/-- the last non-blank character is the continuation marker `=` -/
+def trailingEq : List Char → Bool
+  | [] => false
+  | c :: cs => if c == '=' && allWs cs then true else trailingEq cs
+
+/-- the text in front of the continuation marker (all of it when there is none) -/
+def body : List Char → List Char
+  | [] => []
+  | c :: cs => if c == '=' && allWs cs then [] else c :: body cs
+
+def isContLine (l : Line) : Bool := trailingEq (content l) && !plainRem l
+
+/-- tokens of one physical line: marker removed, keyword (first token of a non-indented line) upper-cased -/
+def ptoks (l : Line) : List Token :=
+  let t := split (if isContLine l then body (content l) else content l)
+  if indented l then t else upperHead t
+
+def normAux : Option (List Token) → List Line → Option (List (List Token))
+  | none, [] => some []
+  | some _, [] => none                                   -- continuation marker on the last line
+  | none, l :: rest =>
+    if skip l then normAux none rest
+    else if isContLine l then
+      (if (ptoks l).isEmpty then none else normAux (some (ptoks l)) rest)   -- marker without instruction
+    else (normAux none rest).map (ptoks l :: ·)
+  | some acc, l :: rest =>
+    if !indented l then none                              -- continuation lines have to be indented
+    else if isContLine l then normAux (some (acc ++ ptoks l)) rest
+    else (normAux none rest).map ((acc ++ ptoks l) :: ·)
+
+/-- the logical token lines of a file; `none` if the layout is not valid -/
+def norm (f : List Line) : Option (List (List Token)) := normAux none f
+
+def ValidLayout (f : List Line) : Prop := (norm f).isSome
+
+/-! ### case handling behind the tokens (cards.py `Residue.residue_number`, `Residues.append`) -/
+
+/-- `Residues.residue_classes` is keyed by the class as `RESI` keeps it; a restraint asks with its upper-cased
+    suffix. `eqv` is the comparison of keys: `(· == ·)` as it was, case-insensitive after fixes/C05_3. -/
+def classNumbers (eqv : Token → Token → Bool) (resis : List (Token × Int)) (suffix : Token) : List Int :=
+  match (resis.filter fun r => eqv r.1 (upper suffix)).map (·.2) with
+  | [] => [0]
+  | l => l
+
+def keyOld (a b : Token) : Bool := a == b
+def keyNew (a b : Token) : Bool := upper a == upper b
+
+/-- spec: the numbers of the residues whose class is the suffix, letter case ignored -/
+def specClassNumbers (resis : List (Token × Int)) (suffix : Token) : List Int :=
+  let l := (resis.filter fun r => upper r.1 == upper suffix).map (·.2)
+  if l.isEmpty then [0] else l
 
 end Shelx.C05
